@@ -1,32 +1,43 @@
 (* C07 - scancode decoders resynchronise after every event or error *)
 From Coq Require Import NArith Arith Bool List Lia.
-From PK Require Import Base.Outcome Base.Finite Base.Machine Gen.Types Impl Check.Scan.
+From PK Require Import Base.Outcome Base.Finite Base.Machine Base.Reach Gen.Types Impl Check.Scan.
 Import ListNotations.
 Local Open Scope N_scope.
 
 Definition silent_sc (o : sc_result) : bool := match o with Ok None => true | _ => false end.
 
-(* candidate set of reachable states: bounded exploration from the initial state (at most 64 rounds) *)
-Definition sc_states (I : ScanImpl) (s0 : sc_st I) : list (sc_st I) :=
-  explore (scan_machine I) (sc_eqb I) all_bytes 64 [s0] [s0].
+(* candidate set of reachable states: bounded breadth-first exploration from the initial state, kept in a
+   trie keyed by [key] (Base/Reach.v; any key function is sound) *)
+Definition sc_kstates (I : ScanImpl) (key : sc_st I -> N) (s0 : sc_st I) : buckets (scan_machine I) :=
+  kstates (scan_machine I) (sc_eqb I) key all_bytes 4000 50000 s0.
+Definition sc_states (I : ScanImpl) (key : sc_st I -> N) (s0 : sc_st I) : list (sc_st I) :=
+  kall (scan_machine I) (sc_kstates I key s0).
 
-Notation inv_C07 I s0 := (inv_closed (scan_machine I) (sc_eqb I) all_bytes (sc_states I s0) s0).
-Notation resets_C07 I s0 := (resets (scan_machine I) (sc_eqb I) all_bytes silent_sc (sc_states I s0) s0).
-Notation quiet_C07 I s0 n :=
-  (forallb (fun s => negb (can_silent (scan_machine I) all_bytes silent_sc n s)) (sc_states I s0)).
+Notation inv_C07 I key s0 := (kinv_closed (scan_machine I) (sc_eqb I) key all_bytes (sc_kstates I key s0) s0).
+Notation resets_C07 I key s0 := (resets (scan_machine I) (sc_eqb I) all_bytes silent_sc (sc_states I key s0) s0).
+Notation quiet_C07 I key s0 n :=
+  (forallb (fun s => negb (can_silent (scan_machine I) all_bytes silent_sc n s)) (sc_states I key s0)).
 
-(* non-resetting transitions, for the search for a failing input: (state index, byte) *)
-Definition nonresetting (I : ScanImpl) (s0 : sc_st I) : list (sc_st I * N) :=
+(* non-resetting transitions, for the search for a failing input *)
+Definition nonresetting (I : ScanImpl) (key : sc_st I -> N) (s0 : sc_st I) : list (sc_st I * N) :=
   flat_map (fun s => map (fun b => (s, b))
      (filter (fun b => match sc_step I s b with
                        | Ret (s', o) => negb (silent_sc o || sc_eqb I s' s0)
-                       | Panic => true end) all_bytes)) (sc_states I s0).
+                       | Panic => true end) all_bytes)) (sc_states I key s0).
+(* a shortest byte stream ending in such a transition *)
+Definition find_nonresetting (I : ScanImpl) (key : sc_st I -> N) (s0 : sc_st I) : option (list N) :=
+  kfind (scan_machine I) (sc_eqb I) key all_bytes
+        (fun _ _ r => match r with Ret (s', o) => negb (silent_sc o || sc_eqb I s' s0) | Panic => true end)
+        4000 50000 s0.
 
 Section Sound.
   Variable I : ScanImpl.
+  Variable key : sc_st I -> N.
   Variable s0 : sc_st I.
-  Hypothesis Hinv : inv_C07 I s0 = true.
-  Hypothesis Hres : resets_C07 I s0 = true.
+  Hypothesis Hinv : inv_C07 I key s0 = true.
+  Hypothesis Hres : resets_C07 I key s0 = true.
+  Let Hinit := @kall_init _ _ (scan_machine I) (sc_eqb I) key all_bytes (sc_eqb_ok I) _ _ Hinv.
+  Let Hstep := @kall_step _ _ (scan_machine I) (sc_eqb I) key all_bytes (sc_eqb_ok I) _ _ Hinv.
 
   (* whenever the decoder has just reported an event or an error it is in its initial state, and
      everything that follows is decoded exactly as from a fresh decoder *)
@@ -38,16 +49,16 @@ Section Sound.
       match run (scan_machine I) s0 t with Ret (s', ot) => Ret (s', (oh ++ [o]) ++ ot) | Panic => Panic end.
   Proof.
     intros h b t Hh Ht. apply bytes_in in Hh. apply bytes_in in Ht.
-    exact (@resync _ _ (scan_machine I) (sc_eqb I) (sc_eqb_ok I) all_bytes silent_sc (sc_states I s0) s0 Hinv Hres h b t Hh Ht).
+    exact (@resync_gen _ _ (scan_machine I) (sc_eqb I) (sc_eqb_ok I) all_bytes silent_sc (sc_states I key s0) s0 Hinit Hstep Hres h b t Hh Ht).
   Qed.
 
   (* after any history, among any n consecutive bytes at least one is answered with an event or error *)
-  Theorem C07_silence_sound (n : nat) : quiet_C07 I s0 n = true ->
+  Theorem C07_silence_sound (n : nat) : quiet_C07 I key s0 n = true ->
     forall h b, Forall byte h -> Forall byte b -> length b = n ->
     exists sh oh s' ob, run (scan_machine I) s0 h = Ret (sh, oh) /\ run (scan_machine I) sh b = Ret (s', ob) /\
                         existsb (fun o => negb (silent_sc o)) ob = true.
   Proof.
     intros Hq h b Hh Hb. apply bytes_in in Hh. apply bytes_in in Hb.
-    exact (@silence_bound _ _ (scan_machine I) (sc_eqb I) (sc_eqb_ok I) all_bytes silent_sc (sc_states I s0) s0 n Hinv Hq h b Hh Hb).
+    exact (@silence_bound_gen _ _ (scan_machine I) all_bytes silent_sc (sc_states I key s0) s0 Hinit Hstep n Hq h b Hh Hb).
   Qed.
 End Sound.
